@@ -47,6 +47,7 @@ impl GcEngine {
         match self.source.as_str() {
             "stdlib" => "C09:gc",
             "host" => "C18:gc",
+            "closures" => "C06:gc",
             _ => "C02",
         }
     }
@@ -171,6 +172,7 @@ impl Engine for GcEngine {
         let pick = match self.source.as_str() {
             "stdlib" => 100,
             "host" => 101,
+            "closures" => 102,
             _ => rng.below(11),
         };
         let (module, scenario) = match pick {
@@ -179,6 +181,14 @@ impl Engine for GcEngine {
                 (m, format!("stdlib:{s}"))
             }
             101 | 10 => crate::gen_closure::gen_host_gc_scenario(rng),
+            102 => {
+                if rng.chance(2, 3) {
+                    crate::gen_closure::gen_closure_scenario(rng)
+                } else {
+                    let mut g = ProgGen::new(rng, GenCfg { int_extremes: false, ..GenCfg::closures() });
+                    (g.gen_program(), "random-closures".to_string())
+                }
+            }
             0 => crate::gen_closure::gen_closure_scenario(rng),
             1 | 4 | 5 => crate::gen_closure::gen_gc_scenario(rng),
             2 | 3 => {
